@@ -38,24 +38,46 @@ def check_lookup_by_identifier(ctx, rule):
     ctx.rule(rule, "the binary decoder resolves a record's descriptor only by the identifier carried in the record frame (name AND hash): no fallback to a lookup by name")
     uo = ctx.anchor_func("flow.record.packer.RecordPacker.unpack_obj")
     ucfg6 = CFG(uo)
-    finals = [c for c in calls_in(uo) if isinstance(c.func, ast.Attribute) and c.func.attr == "_unpack" and isinstance(c.func.value, ast.Attribute) and c.func.value.attr == "recordType"
-              and isinstance(c.func.value.value, ast.Name)]
-    ctx.floor(rule, "record constructions in unpack_obj", len(finals), 2)
+    finals = [c for c in calls_in(uo) if isinstance(c.func, ast.Attribute) and c.func.attr == "_unpack" and isinstance(c.func.value, ast.Attribute) and c.func.value.attr == "recordType"]
+    ctx.floor(rule, "record constructions in unpack_obj", len(finals), 1)
+
+    def lookup_key(v):
+        if isinstance(v, ast.Call) and isinstance(v.func, ast.Attribute) and v.func.attr == "get" and norm(v.func.value) == "self.descriptors" and v.args:
+            return v.args[0]
+        if isinstance(v, ast.Subscript) and norm(v.value) == "self.descriptors":
+            return v.slice
+        return None
+
+    def sources(name, at, depth=0):
+        """Expressions that define `name` at node `at`, followed through plain copies."""
+        out = []
+        for i in ucfg6.reaching_defs(name).get(at, set()):
+            d = ucfg6.nodes[i].ast
+            if d is None:
+                continue
+            v = None
+            if isinstance(d, ast.Assign):
+                t0 = d.targets[0]
+                if isinstance(t0, (ast.Tuple, ast.List)) and isinstance(d.value, (ast.Tuple, ast.List)) and len(t0.elts) == len(d.value.elts):
+                    v = next((b for a, b in zip(t0.elts, d.value.elts) if isinstance(a, ast.Name) and a.id == name), None)
+                else:
+                    v = d.value
+            if isinstance(v, ast.Name) and depth < 5:
+                out += sources(v.id, i, depth + 1) or [(d, v)]
+            else:
+                out.append((d, v))
+        return out
+
     for fc in finals:
-        dv = fc.func.value.value.id
-        rdefs = [ucfg6.nodes[i].ast for i in ucfg6.reaching_defs(dv).get((ucfg6.header_node_for_expr(fc) or ucfg6.node_of(fc)).id, set()) if ucfg6.nodes[i].ast is not None]
-        for d in rdefs:
-            v = d.value if isinstance(d, ast.Assign) else None
-            key = None
-            if isinstance(v, ast.Call) and isinstance(v.func, ast.Attribute) and v.func.attr == "get" and norm(v.func.value) == "self.descriptors" and v.args:
-                key = v.args[0]
-            elif isinstance(v, ast.Subscript) and norm(v.value) == "self.descriptors":
-                key = v.slice
+        recv = fc.func.value.value
+        at = (ucfg6.header_node_for_expr(fc) or ucfg6.node_of(fc)).id
+        srcs = sources(recv.id, at) if isinstance(recv, ast.Name) else [(fc, recv)]
+        for d, v in srcs:
+            key = lookup_key(v) if v is not None else None
             whole = key is not None and not (isinstance(key, ast.Subscript) or (isinstance(key, ast.Attribute) and key.attr in ("name",)))
             ctx.check(whole, rule, f"unpack_obj:descriptor-lookup:{norm(v)[:50] if v is not None else norm(d)[:50]}",
                       f"the descriptor for a record is taken from `{norm(v) if v is not None else norm(d)}`: a lookup by anything less than the identifier of the frame (e.g. the type name) decodes "
                       "the record with another version of the type", d, "self.descriptors[<identifier of the frame>]", key=f"{rule}:unpack_obj:lookup-not-by-identifier")
-
 
 
 def run(ctx):
